@@ -292,6 +292,8 @@ type Client struct {
 	unorderedTxs
 
 	pendingAck []byte // enqueued packet submission
+	// The marker for pendingAck, a PUBREC, is in Persistence already.
+	pendingAckSaved bool
 
 	// The read routine parks reception beyond readBufSize.
 	bigMessage *BigMessage
@@ -1241,6 +1243,24 @@ func (c *Client) ReadSlices() (message, topic []byte, err error) {
 }
 
 func (c *Client) readSlices() (message, topic []byte, err error) {
+	// The invocation passes ownership of the previous message, if any. Mark
+	// exactly-once reception first, as anything next may fail, including
+	// the (re)connect and the skip of a BigMessage.
+	//
+	// BUG(pascaldekloe): Save errors from Persistence can cause
+	// duplicate reception of messages with the “exactly once”
+	// guarantee, but only in a follow-up with AdoptSession, and
+	// only if the Client which encountered Persistence failure
+	// goes down before automatic-recovery in ReadSlices succeded.
+	if !c.pendingAckSaved && len(c.pendingAck) != 0 && c.pendingAck[0]>>4 == typePUBREC {
+		key := uint(binary.BigEndian.Uint16(c.pendingAck[2:4])) | remoteIDKeyFlag
+		err = c.persistence.Save(key, net.Buffers{c.pendingAck})
+		if err != nil {
+			return nil, nil, err
+		}
+		c.pendingAckSaved = true
+	}
+
 	// auto connect
 	if c.readConn == nil {
 		if err = c.connect(); err != nil {
@@ -1267,18 +1287,6 @@ func (c *Client) readSlices() (message, topic []byte, err error) {
 	// acknowledge previous packet, if any
 	verifPoint("read.flush")
 	if len(c.pendingAck) != 0 {
-		// BUG(pascaldekloe): Save errors from Persistence can cause
-		// duplicate reception of messages with the “exactly once”
-		// guarantee, but only in a follow-up with AdoptSession, and
-		// only if the Client which encountered Persistence failure
-		// goes down before automatic-recovery in ReadSlices succeded.
-		if c.pendingAck[0]>>4 == typePUBREC {
-			key := uint(binary.BigEndian.Uint16(c.pendingAck[2:4])) | remoteIDKeyFlag
-			err = c.persistence.Save(key, net.Buffers{c.pendingAck})
-			if err != nil {
-				return nil, nil, err
-			}
-		}
 		err := c.writeFromRead(c.pendingAck)
 		if err != nil {
 			c.toOffline()
@@ -1286,6 +1294,7 @@ func (c *Client) readSlices() (message, topic []byte, err error) {
 		}
 
 		c.pendingAck = c.pendingAck[:0]
+		c.pendingAckSaved = false
 	}
 
 	// process packets until a PUBLISH appears
